@@ -134,10 +134,15 @@ def run_impl(case):
                       acknowledge_request=bool(case["ack"]), confirm_error=bool(case["cerr"]), hop_count=case["hop"])
     fr = CEMIFrame(code=CEMIMessageCode(case["code"]), info=CEMIInfo(bytes.fromhex(case["info"])),
                    data=CEMILData(flags=flags, src_addr=IndividualAddress(case["src"]), dst_addr=dst, tpci=tp, payload=pay))
+    encodable = True
     if pay is not None:
-        ap, alen = cc.hx(pay.to_knx()), pay.calculated_length()
+        try:
+            ap, alen = cc.hx(pay.to_knx()), pay.calculated_length()
+        except ConversionError:
+            ap, alen, encodable = "refuse", 0, False  # the service object itself refuses to encode (C06's subject)
     else:
         ap, alen = "none", 0
+    case["_encodable"] = encodable
     try:
         raw = fr.to_knx()
         res = f"ok {cc.hx(raw)}"
@@ -164,7 +169,7 @@ def oracle(case, out):
         return f"serialisation raised {out[6:]}"
     if case["kind"] == "build":
         fr, npdu = case.pop("_fr"), case.pop("_npdu")
-        legal = npdu <= 254 and 0 <= case["hop"] <= 7
+        legal = npdu <= 254 and 0 <= case["hop"] <= 7 and case.pop("_encodable", True)
         if out == "conv":
             return None if not legal else f"frame with NPDU length {npdu}, hop count {case['hop']} was refused"
         if not legal:
